@@ -303,6 +303,11 @@ func (b *Bundle) UnusedChain(length int, class string, selfRef bool) {
 func (b *Bundle) Files(nf func(jx.Obj) jx.Obj) map[string]string {
 	out := map[string]string{"root.json": string(jx.Canon(nf(b.Root)))}
 	for f, d := range b.Aux {
+		if _, isDoc := d["swagger"]; !isDoc {
+			// a document that is a bare schema: the normal form of the Swagger model would erase it
+			out[f] = string(jx.Canon(d))
+			continue
+		}
 		out[f] = string(jx.Canon(nf(d)))
 	}
 	return out
